@@ -322,6 +322,18 @@ def rule_call_flag(model):
         if isinstance(n, ast.For):
             loopvars |= {x.id for x in ast.walk(n.target)
                          if isinstance(x, ast.Name)}
+    # the looked-up value may live in its own variable:
+    #   value = source[key]
+    for _ in range(2):
+        for n in own_nodes(g.node):
+            if isinstance(n, ast.Assign) and len(n.targets) == 1 and \
+                    isinstance(n.targets[0], ast.Name) and (
+                        (isinstance(n.value, ast.Subscript) and
+                         isinstance(n.value.value, ast.Name) and
+                         n.value.value.id in loopvars) or
+                        (isinstance(n.value, ast.Name) and
+                         n.value.id in loopvars)):
+                loopvars.add(n.targets[0].id)
     dom = _FlagDomain(flagname, loopvars)
     Interp(dom).run(g.node, _FS())
     ncalls = len(dom.sites)
@@ -483,8 +495,9 @@ def rule_direction(model):
                       node=f.node, ctx=f)
         if name == 'getitem':
             # first hit wins: a return inside the loop
-            if not any(isinstance(x, ast.Return) for lp in loops
-                       for x in ast.walk(lp)):
+            # (a return, or a break out of the search loop)
+            if not any(isinstance(x, (ast.Return, ast.Break))
+                       for lp in loops for x in ast.walk(lp)):
                 r.finding(f.where, 'lookup loop', 'lookup does not stop at '
                           'the first source defining the name',
                           node=f.node, ctx=f)
@@ -560,8 +573,18 @@ def rule_scoping(model):
     return r
 
 
-RULES = [rule_push_order, rule_ctor, rule_call_flag, rule_direction,
-         rule_scoping]
+def _inl(rule):
+    """Run a rule on the view in which helpers that are new w.r.t. the
+    reference tree are inlined at their call sites (normalise.N2)."""
+    def run(model):
+        return rule(model.inlined_view())
+    run.__name__ = rule.__name__
+    return run
+
+
+INLINED_VIEW = True
+RULES_PLAIN = [rule_push_order, rule_ctor, rule_call_flag, rule_direction, rule_scoping]
+RULES = [_inl(r_) for r_ in RULES_PLAIN] if INLINED_VIEW else RULES_PLAIN
 EXPLANATION = (
     'Forward dataflow of the precedence class of every namespace push along '
     'all paths of the template call; dominance of the guards in initvars; '
